@@ -121,7 +121,8 @@ def units(tier, seed):
 def ts_items(secs, nanos, off, both_forms=True):
     """All checks for one timestamp."""
     items = []
-    if not (MIN_SECS <= secs <= MAX_SECS):
+    # the statement ranges over the year *written* (local time at the timestamp's own offset): 0001-9999
+    if not (MIN_SECS <= secs + off <= MAX_SECS):
         return items
     text = rfc3339(secs, nanos, off)
     f = fields(secs, nanos, off)
